@@ -1,4 +1,5 @@
 import Beeb.Props.C19
 #print axioms Beeb.Props.C19.C19_asserts_pure
+#print axioms Beeb.Props.C19.C19_ndebug_regions_pure
 #print axioms Beeb.Props.C19.C19_dfs
 #print axioms Beeb.Props.C19.C19_basic_default_dialect
